@@ -12,16 +12,18 @@ Definition m_acts1 (m : monst) (e : list N) : list mact :=
   match e with
   | [1; c] => macts m ++ [new_caller (mstepno m) (N.eqb c 1)]
   | [4; j] => upd (macts m) (N.to_nat j) set_canc
-  | [5; j; k] => upd (macts m) (N.to_nat j) (set_out (k + 1))
+  | [5; j; k] => upd (macts m) (N.to_nat j) (set_out (out_code k) (starter_canc (macts m) (N.to_nat j)))
   | _ => macts m
   end%N.
+Definition m_starter (e : list N) : nat := match e with [3; j; _] => N.to_nat j | _ => 0%nat end%N.
 Definition m_succ1 (m : monst) (e : list N) : option (N * nat) :=
   match e with
   | [5; j; 0] => match msucc m with None => Some (j + 1, mstepno m) | Some x => Some x end
   | _ => msucc m
   end%N.
 Definition m_nnew (m : monst) (e o : list N) : nat := length (pairs o) - length (m_acts1 m e).
-Definition m_acts2 (m : monst) (e o : list N) : list mact := m_acts1 m e ++ repeat (new_gor (mstepno m)) (m_nnew m e o).
+Definition m_acts2 (m : monst) (e o : list N) : list mact :=
+  m_acts1 m e ++ repeat (new_gor (mstepno m) (m_starter e)) (m_nnew m e o).
 Definition is_newly (z : zt) : bool := mcaller (fst z) && negb (mretd (fst z)) && is_ret_code (zc z).
 Definition bad_val (succ1 : option (N * nat)) (z : zt) : bool :=
   N.eqb (zc z) 3 && negb (match succ1 with Some (v, _) => N.eqb v (zv z) | None => false end).
@@ -38,6 +40,12 @@ Definition bad_err (acts2 : list mact) (z : zt) : bool :=
                match mpub g with Some t => Nat.ltb t (mborn (fst z)) | None => false end
    | None => true
    end).
+Definition bad_taint (acts2 : list mact) (z : zt) : bool :=
+  N.eqb (zc z) 5 && negb (mcanc (fst z)) &&
+  match nth_error acts2 (N.to_nat (zv z - 1)) with
+  | Some g => negb (mcaller g) && mtaint g
+  | None => false
+  end.
 Definition bad_canc (z : zt) : bool := N.eqb (zc z) 4 && negb (mcanc (fst z)).
 Definition is_blocked (z : zt) : bool := N.eqb (zc z) 2.
 Definition is_cblocked (z : zt) : bool := mcaller (fst z) && mcanc (fst z) && N.eqb (zc z) 2.
@@ -53,7 +61,8 @@ Definition bk (i : nat) (zs : list zt) (jz : nat * zt) : mact :=
              | Some t => Some t
              | None => if negb (mcaller a) && N.eqb (mout a) 2 && (N.eqb c 9 || err_ret zs (N.of_nat j + 1)%N)
                        then Some i else None
-             end |}.
+             end;
+     mstart := mstart a; mtaint := mtaint a |}.
 
 Lemma mon_once_eq m e o :
   mon_once m e o =
@@ -71,7 +80,8 @@ Lemma mon_once_eq m e o :
    (if existsb (bad_err acts2) newly then [(16, 3)] else []) ++
    (if existsb bad_canc newly then [(16, 4)] else []) ++
    (if existsb is_cblocked zs || (existsb is_blocked zs && negb (existsb is_active zs)) then [(16, 5)] else []) ++
-   (if existsb is_panic zs then [(16, 8)] else [])).
+   (if existsb is_panic zs then [(16, 8)] else []) ++
+   (if existsb (bad_taint acts2) newly then [(16, 9)] else [])).
 Proof. reflexivity. Qed.
 
 (* ------------------------------------------------------------------ the simulation relation *)
@@ -84,10 +94,16 @@ Definition grel (j : nat) (mx : mact) (y : gor) : Prop :=
   | Some RCanceled => mout mx = 2 \/ mout mx = 3
   end%N.
 
-Definition arel (s : st) (j : nat) (mx : mact) (hx : hact) : Prop :=
+(* a tainted invocation (starter already cancelled when the callback returned) never passes an error to SetResult *)
+Definition tsafe (s : st) (mx : mact) (y : gor) : Prop :=
+  mtaint mx = true -> ctx_cancelled s (gsp y) = true /\ forall e, gp y <> GPub (RErr e) /\ gp y <> GDone (RErr e).
+
+Definition arel (h : hst) (j : nat) (mx : mact) (hx : hact) : Prop :=
+  let s := ms h in
   match hx with
   | HC a => exists x, nth_error (cs s) a = Some x /\ mcaller mx = true /\ mcanc mx = cc x /\ mretd mx = is_cret (cp x)
-  | HG g => exists y, nth_error (gs s) g = Some y /\ grel j mx y /\ (mpub mx <> None -> exists r, gp y = GDone r)
+  | HG g => exists y, nth_error (gs s) g = Some y /\ grel j mx y /\ (mpub mx <> None -> exists r, gp y = GDone r) /\
+              nth_error (hmap h) (mstart mx) = Some (HC (gsp y)) /\ tsafe s mx y
   end.
 
 (* msucc: no attempt has succeeded so far / attempt g has succeeded at step t with v, and every caller born later
@@ -102,32 +118,34 @@ Definition srel (succ : option (N * nat)) (acts : list mact) (h : hst) : Prop :=
 Definition R (m : monst) (h : hst) : Prop :=
   length (macts m) = length (hmap h) /\
   (forall j mx hx, nth_error (macts m) j = Some mx -> nth_error (hmap h) j = Some hx ->
-     mborn mx <= mstepno m /\ arel (ms h) j mx hx) /\
+     mborn mx <= mstepno m /\ arel h j mx hx) /\
   srel (msucc m) (macts m) h.
 
 Definition HR (h : hst) : Prop := Inv (ms h) /\ HS (ms h) /\ HM h.
 
 (* between the event and the bookkeeping: the table against the NEW model state, returned/delivered flags still old *)
-Definition amid (s s' : st) (j : nat) (mx : mact) (hx : hact) : Prop :=
+Definition amid (h h' : hst) (j : nat) (mx : mact) (hx : hact) : Prop :=
+  let s := ms h in let s' := ms h' in
   match hx with
   | HC a => exists x', nth_error (cs s') a = Some x' /\ mcaller mx = true /\ mcanc mx = cc x' /\
               (mretd mx = true -> is_cret (cp x') = true) /\
               (mretd mx = false -> forall r p, cp x' = CRet r (Some p) ->
                  forall y r0, nth_error (gs s) p = Some y -> gp y = GDone r0 -> is_ok r0 = true)
   | HG g => exists y', nth_error (gs s') g = Some y' /\ grel j mx y' /\
-              (mpub mx <> None -> exists y r, nth_error (gs s) g = Some y /\ gp y = GDone r /\ gp y' = GDone r)
+              (mpub mx <> None -> exists y r, nth_error (gs s) g = Some y /\ gp y = GDone r /\ gp y' = GDone r) /\
+              nth_error (hmap h') (mstart mx) = Some (HC (gsp y')) /\ tsafe s' mx y'
   end.
 
 Definition Mid (i : nat) (acts2 : list mact) (h h' : hst) : Prop :=
   length acts2 = length (hmap h') /\
   forall j mx hx, nth_error acts2 j = Some mx -> nth_error (hmap h') j = Some hx ->
-    mborn mx <= i /\ amid (ms h) (ms h') j mx hx.
+    mborn mx <= i /\ amid h h' j mx hx.
 
 (* ------------------------------------------------------------------ the event's effect on one entry of the table *)
-Definition eupd (e : list N) (j : nat) : mact -> mact :=
+Definition eupd (m : monst) (e : list N) (j : nat) : mact -> mact :=
   match e with
   | [4; i] => if Nat.eqb (N.to_nat i) j then set_canc else (fun a => a)
-  | [5; i; k] => if Nat.eqb (N.to_nat i) j then set_out (k + 1) else (fun a => a)
+  | [5; i; k] => if Nat.eqb (N.to_nat i) j then set_out (out_code k) (starter_canc (macts m) j) else (fun a => a)
   | _ => fun a => a
   end%N.
 
@@ -145,13 +163,13 @@ Proof.
   - destruct (nth_error l i); [|reflexivity]. apply nth_error_set_nth_other. congruence.
 Qed.
 
-Lemma acts1_old m e j mx0 : eshape e -> nth_error (macts m) j = Some mx0 -> nth_error (m_acts1 m e) j = Some (eupd e j mx0).
+Lemma acts1_old m e j mx0 : eshape e -> nth_error (macts m) j = Some mx0 -> nth_error (m_acts1 m e) j = Some (eupd m e j mx0).
 Proof.
   intros Hs G. destruct Hs as [[c ->]|[(i & ch & ->)|[[i ->]|(i & k & ->)]]]; cbn [m_acts1 eupd].
   - now apply nth_error_app_old.
   - exact G.
   - rewrite upd_nth, G. destruct (Nat.eqb (N.to_nat i) j); reflexivity.
-  - rewrite upd_nth, G. destruct (Nat.eqb (N.to_nat i) j); reflexivity.
+  - rewrite upd_nth, G. destruct (Nat.eqb_spec (N.to_nat i) j) as [->|Hne]; reflexivity.
 Qed.
 
 Lemma acts1_length m e : eshape e ->
@@ -164,15 +182,16 @@ Proof.
   - rewrite upd_length. lia.
 Qed.
 
-Lemma eupd_fixed e j mx : eshape e ->
-  mcaller (eupd e j mx) = mcaller mx /\ mborn (eupd e j mx) = mborn mx /\ mretd (eupd e j mx) = mretd mx /\ mpub (eupd e j mx) = mpub mx.
+Lemma eupd_fixed m e j mx : eshape e ->
+  mcaller (eupd m e j mx) = mcaller mx /\ mborn (eupd m e j mx) = mborn mx /\ mretd (eupd m e j mx) = mretd mx /\
+  mpub (eupd m e j mx) = mpub mx /\ mstart (eupd m e j mx) = mstart mx.
 Proof.
   intros Hs. destruct Hs as [[c ->]|[(i & ch & ->)|[[i ->]|(i & k & ->)]]]; cbn [eupd]; auto;
     destruct (Nat.eqb (N.to_nat i) j); auto.
 Qed.
 
-Lemma eupd_canc h e j a mx : eshape e -> HM h -> nth_error (hmap h) j = Some (HC a) ->
-  mcanc (eupd e j mx) = mcanc mx || ecanc h e a.
+Lemma eupd_canc m h e j a mx : eshape e -> HM h -> nth_error (hmap h) j = Some (HC a) ->
+  mcanc (eupd m e j mx) = mcanc mx || ecanc h e a.
 Proof.
   intros Hs (H1 & _) Hj. destruct Hs as [[c ->]|[(i & ch & ->)|[[i ->]|(i & k & ->)]]]; cbn [eupd ecanc];
     try (now rewrite orb_false_r).
@@ -183,36 +202,50 @@ Proof.
   - destruct (Nat.eqb (N.to_nat i) j); cbn [set_out mcanc]; now rewrite orb_false_r.
 Qed.
 
-Lemma eupd_out h e j g mx : eshape e -> HM h -> nth_error (hmap h) j = Some (HG g) ->
+Lemma eupd_out m h e j g mx : eshape e -> HM h -> nth_error (hmap h) j = Some (HG g) ->
   match ecb h e g with
-  | Some (i, k) => N.to_nat i = j /\ mout (eupd e j mx) = (k + 1)%N
-  | None => mout (eupd e j mx) = mout mx
+  | Some (i, k) => N.to_nat i = j /\ mout (eupd m e j mx) = out_code k /\ mtaint (eupd m e j mx) = starter_canc (macts m) j
+  | None => mout (eupd m e j mx) = mout mx /\ mtaint (eupd m e j mx) = mtaint mx
   end.
 Proof.
-  intros Hs (H1 & _) Hj. destruct Hs as [[c ->]|[(i & ch & ->)|[[i ->]|(i & k & ->)]]]; cbn [eupd ecb]; try reflexivity.
-  - destruct (Nat.eqb (N.to_nat i) j); reflexivity.
+  intros Hs (H1 & _) Hj. destruct Hs as [[c ->]|[(i & ch & ->)|[[i ->]|(i & k & ->)]]]; cbn [eupd ecb]; try (split; reflexivity).
+  - destruct (Nat.eqb (N.to_nat i) j); split; reflexivity.
   - destruct (Nat.eqb_spec (N.to_nat i) j) as [E|Hne].
-    + rewrite E, Hj, !Nat.eqb_refl. split; [exact E | reflexivity].
-    + destruct (nth_error (hmap h) (N.to_nat i)) as [[a'|g']|] eqn:Hi; try reflexivity.
-      destruct (Nat.eqb_spec g' g) as [->|Hng]; [|reflexivity]. exfalso. apply Hne. eapply H1; eauto.
+    + rewrite E, Hj, !Nat.eqb_refl. split; [exact E | split; reflexivity].
+    + destruct (nth_error (hmap h) (N.to_nat i)) as [[a'|g']|] eqn:Hi; try (split; reflexivity).
+      destruct (Nat.eqb_spec g' g) as [->|Hng]; [|split; reflexivity]. exfalso. apply Hne. eapply H1; eauto.
 Qed.
 
 (* ------------------------------------------------------------------ the table after the event, against the new state *)
 Lemma outcome_cases i k o : outcome i k = Some o ->
-  ((k = 0 /\ o = RVal (i + 1)) \/ (k = 1 /\ o = RErr (i + 1)) \/ (k = 2 /\ o = RCanceled))%N.
+  ((o = RVal (i + 1) /\ out_code k = 1) \/ (o = RErr (i + 1) /\ out_code k = 2) \/ (o = RCanceled /\ out_code k = 3))%N.
 Proof.
-  unfold outcome. destruct (N.eqb_spec k 0) as [->|H0]; [intros H; inversion H; auto|].
-  destruct (N.eqb_spec k 1) as [->|H1]; [intros H; inversion H; auto|].
-  destruct (N.eqb_spec k 2) as [->|H2]; [intros H; inversion H; auto | discriminate].
+  unfold outcome, out_code. destruct (N.eqb_spec k 0) as [->|H0]; [intros H; inversion H; auto|].
+  destruct (N.eqb_spec k 2) as [->|H2]; [intros H; inversion H; auto|].
+  destruct (N.leb k 64); [intros H; inversion H; auto | discriminate].
+Qed.
+
+Lemma hdec_hmap_prefix h e h' k x : hdec h e h' -> nth_error (hmap h) k = Some x -> nth_error (hmap h') k = Some x.
+Proof.
+  intros D G. destruct (hdec_hmap _ _ _ D) as [(Eh & _)|[(c & _ & Eh)|(i & ch & _ & _ & Eh)]]; rewrite Eh; auto using nth_error_app_old.
+Qed.
+
+Lemma starter_canc_ctx m h j mx0 (y : gor) : R m h -> nth_error (macts m) j = Some mx0 ->
+  nth_error (hmap h) (mstart mx0) = Some (HC (gsp y)) -> starter_canc (macts m) j = true -> ctx_cancelled (ms h) (gsp y) = true.
+Proof.
+  intros (RL & RA & _) Gm G4 Ht. unfold starter_canc in Ht. rewrite Gm in Ht.
+  destruct (nth_error (macts m) (mstart mx0)) as [c|] eqn:Gc; [|discriminate].
+  destruct (RA _ _ _ Gc G4) as [_ Ha]. cbn [arel] in Ha. destruct Ha as (x & Gx & _ & A2 & _).
+  unfold ctx_cancelled. rewrite Gx. congruence.
 Qed.
 
 Lemma mid_old m h e h' j mx0 hx : HR h -> R m h -> hdec h e h' ->
   nth_error (macts m) j = Some mx0 -> nth_error (hmap h) j = Some hx -> nth_error (hmap h') j = Some hx ->
-  mborn (eupd e j mx0) <= mstepno m /\ amid (ms h) (ms h') j (eupd e j mx0) hx.
+  mborn (eupd m e j mx0) <= mstepno m /\ amid h h' j (eupd m e j mx0) hx.
 Proof.
-  intros (HI & HSs & HMh) (RL & RA & RS) D Gm Gh Gh'.
+  intros (HI & HSs & HMh) HRm D Gm Gh Gh'. pose proof HRm as (RL & RA & RS).
   pose proof (hdec_shape _ _ _ D) as Hs. pose proof (hdec_HM _ _ _ D HMh) as HMh'.
-  destruct (RA _ _ _ Gm Gh) as [Hb Ha]. destruct (eupd_fixed e j mx0 Hs) as (F1 & F2 & F3 & F4).
+  destruct (RA _ _ _ Gm Gh) as [Hb Ha]. destruct (eupd_fixed m e j mx0 Hs) as (F1 & F2 & F3 & F4 & F5).
   split; [now rewrite F2|]. destruct HMh' as (_ & HMc & HMg & _).
   destruct hx as [a|g]; cbn [arel amid] in *.
   - destruct Ha as (x & Gx & A1 & A2 & A3).
@@ -220,21 +253,34 @@ Proof.
     destruct (hdec_callers _ _ _ D HI HSs _ _ Gx') as [(x0 & Gx0 & C1 & C2 & C3)|[Hnew _]];
       [|apply nth_error_nth_len in Gx; lia].
     rewrite Gx in Gx0. inversion Gx0; subst x0. exists x'. split; [reflexivity|].
-    split; [congruence|]. split; [rewrite (eupd_canc h e j a mx0 Hs HMh Gh); congruence|]. rewrite F3, A3. split.
+    split; [congruence|]. split; [rewrite (eupd_canc m h e j a mx0 Hs HMh Gh); congruence|]. rewrite F3, A3. split.
     + intros Hr. rewrite (C2 Hr). exact Hr.
     + exact C3.
-  - destruct Ha as (y & Gy & [G1 G2] & G3).
+  - destruct Ha as (y & Gy & [G1 G2] & G3 & G4 & G5).
     specialize (HMg _ _ Gh'). destruct (nth_error (gs (ms h')) g) as [y'|] eqn:Gy'; [|apply nth_error_None in Gy'; lia].
-    destruct (hdec_gors _ _ _ D _ _ Gy') as [(y0 & Gy0 & S1 & S2)|[Hnew _]]; [|apply nth_error_nth_len in Gy; lia].
-    rewrite Gy in Gy0. inversion Gy0; subst y0. exists y'. split; [reflexivity|]. split.
-    + split; [congruence|]. pose proof (eupd_out h e j g mx0 Hs HMh Gh) as Ho.
+    destruct (hdec_gors _ _ _ D _ _ Gy') as [(y0 & Gy0 & S1 & Sg & ST & S2)|[Hnew _]]; [|apply nth_error_nth_len in Gy; lia].
+    rewrite Gy in Gy0. inversion Gy0; subst y0. exists y'. split; [reflexivity|].
+    pose proof (eupd_out m h e j g mx0 Hs HMh Gh) as Ho.
+    split; [|split; [|split]].
+    + split; [congruence|].
       destruct (ecb h e g) as [[i k]|].
-      * destruct Ho as [Hij Ho]. destruct S2 as (Hn & o & Hoc & Hr'). rewrite Hr', Ho.
+      * destruct Ho as (Hij & Ho & _). destruct S2 as (Hn & o & Hoc & Hr'). rewrite Hr', Ho.
         destruct (outcome_cases _ _ _ Hoc) as [[-> ->]|[[-> ->]|[-> ->]]]; [reflexivity| |right; reflexivity].
         split; [reflexivity|]. rewrite <- Hij, N2Nat.id. reflexivity.
-      * rewrite Ho. destruct S2 as [S2|(o & Hro & Hok & Hr')]; [now rewrite S2|].
+      * destruct Ho as [Ho _]. rewrite Ho. destruct S2 as [S2|(o & Hro & Hok & Hr')]; [now rewrite S2|].
         rewrite Hr'. rewrite Hro in G2. destruct o as [v|e0|]; [discriminate| |exact G2]. left. exact (proj1 G2).
     + rewrite F4. intros Hp. destruct (G3 Hp) as [r Hr]. exists y, r. auto.
+    + rewrite F5, Sg. eapply hdec_hmap_prefix; eauto.
+    + intros Ht.
+      assert (Hctx : ctx_cancelled (ms h) (gsp y) = true /\ forall e0, gp y <> GPub (RErr e0) /\ gp y <> GDone (RErr e0)).
+      { destruct (ecb h e g) as [[i k]|].
+        - destruct Ho as (_ & _ & Ho). rewrite Ho in Ht. split; [eapply starter_canc_ctx; eauto|].
+          destruct S2 as (Hn & _). intros e0. unfold gres in Hn. split; intros Hc; rewrite Hc in Hn; discriminate.
+        - destruct Ho as (_ & Ho). rewrite Ho in Ht. exact (G5 Ht). }
+      destruct Hctx as [Hc Hno]. rewrite Sg. split; [eapply hdec_ctx_mono; eauto|].
+      intros e0. split; intros Hy'.
+      * destruct (ST e0 (or_introl Hy')) as [[H|H]|H]; [exact (proj1 (Hno e0) H) | exact (proj2 (Hno e0) H) | congruence].
+      * destruct (ST e0 (or_intror Hy')) as [[H|H]|H]; [exact (proj1 (Hno e0) H) | exact (proj2 (Hno e0) H) | congruence].
 Qed.
 
 Lemma mid_of_step m h e h' : HR h -> R m h -> hdec h e h' -> Mid (mstepno m) (m_acts2 m e (obs h')) h h'.
@@ -243,7 +289,7 @@ Proof.
   pose proof (hdec_shape _ _ _ D) as Hs. pose proof (hdec_HM _ _ _ D HMh) as HMh'.
   assert (Hps : length (pairs (obs h')) = length (hmap h')) by (rewrite pairs_obs; apply map_length).
   assert (Hold : forall j mx hx, j < length (hmap h) -> nth_error (m_acts1 m e) j = Some mx -> nth_error (hmap h) j = Some hx ->
-                   nth_error (hmap h') j = Some hx -> mborn mx <= mstepno m /\ amid (ms h) (ms h') j mx hx).
+                   nth_error (hmap h') j = Some hx -> mborn mx <= mstepno m /\ amid h h' j mx hx).
   { intros j mx hx Hj G1 Gh Gh'. rewrite <- RL in Hj. destruct (nth_error (macts m) j) as [mx0|] eqn:G0; [|apply nth_error_None in G0; lia].
     rewrite (acts1_old m e j mx0 Hs G0) in G1. inversion G1; subst mx. eapply mid_old; eauto. }
   unfold Mid, m_acts2, m_nnew. rewrite Hps.
@@ -277,8 +323,10 @@ Proof.
       cbn [amid]. destruct HMh' as (_ & _ & HMg & _).
       assert (Gh' : nth_error (hmap h') (length (hmap h)) = Some (HG (length (gs (ms h))))) by (rewrite Eh; apply nth_error_app_last).
       specialize (HMg _ _ Gh'). destruct (nth_error (gs (ms h')) (length (gs (ms h)))) as [y'|] eqn:Gy'; [|apply nth_error_None in Gy'; lia].
-      destruct (hdec_gors _ _ _ D _ _ Gy') as [(y0 & Gy0 & _)|(_ & Hn & _)]; [apply nth_error_nth_len in Gy0; lia|].
-      exists y'. split; [reflexivity|]. split; [split; [reflexivity|]; rewrite Hn; reflexivity|]. cbn [new_gor mpub]. intros Hc. exfalso. apply Hc. reflexivity.
+      destruct (hdec_gors _ _ _ D _ _ Gy') as [(y0 & Gy0 & _)|(_ & Hn & _ & _ & i0 & ch0 & Ee & Gst)]; [apply nth_error_nth_len in Gy0; lia|].
+      inversion Ee; subst i0 ch0.
+      exists y'. split; [reflexivity|]. split; [split; [reflexivity|]; rewrite Hn; reflexivity|]. cbn [new_gor mpub mstart mtaint m_starter].
+      split; [intros Hc; exfalso; apply Hc; reflexivity|]. split; [eapply hdec_hmap_prefix; eauto|]. intros Hc. discriminate.
 Qed.
 
 (* where the entries of the table come from *)
@@ -294,7 +342,7 @@ Proof.
                    exists mx0, nth_error (macts m) j = Some mx0 /\ nth_error (hmap h) j = Some hx /\ mborn mx = mborn mx0).
   { intros j mx hx Hj G1 Gh. rewrite <- RL in Hj. destruct (nth_error (macts m) j) as [mx0|] eqn:G0; [|apply nth_error_None in G0; lia].
     rewrite (acts1_old m e j mx0 Hs G0) in G1. inversion G1; subst mx. exists mx0. repeat split; auto.
-    apply (eupd_fixed e j mx0 Hs). }
+    apply (eupd_fixed m e j mx0 Hs). }
   unfold m_acts2, m_nnew. rewrite Hps.
   destruct (hdec_hmap _ _ _ D) as [(Eh & Hne & _)|[(c & -> & Eh)|(i & ch & -> & EP & Eh)]].
   - assert (El : length (m_acts1 m e) = length (macts m)).
@@ -376,7 +424,8 @@ Section Clauses.
   Definition zgor (z : zt) (j g : nat) (y' : gor) : Prop :=
     nth_error (hmap h') j = Some (HG g) /\ nth_error (gs (ms h')) g = Some y' /\ snd z = gcode y' /\
     grel j (fst z) y' /\
-    (mpub (fst z) <> None -> exists y r, nth_error (gs (ms h)) g = Some y /\ gp y = GDone r /\ gp y' = GDone r).
+    (mpub (fst z) <> None -> exists y r, nth_error (gs (ms h)) g = Some y /\ gp y = GDone r /\ gp y' = GDone r) /\
+    nth_error (hmap h') (mstart (fst z)) = Some (HC (gsp y')) /\ tsafe (ms h') (fst z) y'.
 
   Lemma zs_nth j z : nth_error zs j = Some z ->
     nth_error A2 j = Some (fst z) /\ mborn (fst z) <= i /\
@@ -388,7 +437,7 @@ Section Clauses.
     destruct hx as [a|g]; cbn [amid] in Ha.
     - left. destruct Ha as (x' & Gx & A1 & A3 & A4 & A5). exists a, x'. unfold zcaller. cbn [fst snd].
       cbn [codep] in Ec. rewrite Gx in Ec. auto 10.
-    - right. destruct Ha as (y' & Gy & A1 & A3). exists g, y'. unfold zgor. cbn [fst snd].
+    - right. destruct Ha as (y' & Gy & A1 & A3 & A4 & A5). exists g, y'. unfold zgor. cbn [fst snd].
       cbn [codep] in Ec. rewrite Gy in Ec. auto 10.
   Qed.
 
@@ -505,9 +554,22 @@ Section Clauses.
     rewrite Ev. replace (N.of_nat jp + 1 - 1)%N with (N.of_nat jp) by lia. rewrite Nat2N.id, G2, Hcl, Ho.
     replace (N.eqb (N.of_nat jp + 1) 0) with false by (symmetry; apply N.eqb_neq; lia). cbn [negb andb orb N.eqb Pos.eqb].
     destruct (mpub gx) as [t|] eqn:Ep; [|reflexivity]. exfalso.
-    destruct Zg as (_ & _ & _ & _ & Hpub). cbn [fst] in Hpub. destruct Hpub as (y & r & Gy0 & Ey0 & Ey1); [congruence|].
+    destruct Zg as (_ & _ & _ & _ & Hpub & _). cbn [fst] in Hpub. destruct Hpub as (y & r & Gy0 & Ey0 & Ey1); [congruence|].
     rewrite Ey in Ey1. inversion Ey1; subst r.
     destruct Z as (_ & _ & _ & _ & _ & _ & Hnew). specialize (Hnew Hnr _ _ Ecp _ _ Gy0 Ey0). discriminate.
+  Qed.
+
+  (* clause 9 *)
+  Lemma cl9 z : In z zs -> bad_taint A2 z = false.
+  Proof.
+    intros Hz. unfold bad_taint. destruct (N.eqb_spec (zc z) 5) as [Hc|Hc]; [|reflexivity]. cbn [andb].
+    destruct (zs_in _ Hz) as (j & _ & _ & _ & [(a & x' & Z)|(g' & y' & Z)]).
+    - destruct (z_err _ _ _ _ Z Hc) as (p & yp & jp & gx & Ecp & Gy & Ey & Gjp & G2 & Zg & Ev & Ho & Hcl).
+      rewrite Ev. replace (N.of_nat jp + 1 - 1)%N with (N.of_nat jp) by lia. rewrite Nat2N.id, G2, Hcl.
+      destruct (mtaint gx) eqn:Et; [|now rewrite andb_false_r]. exfalso.
+      destruct Zg as (_ & _ & _ & _ & _ & _ & Hts). cbn [fst] in Hts. destruct (Hts Et) as [_ Hno].
+      exact (proj2 (Hno _) Ey).
+    - exfalso. pose proof (z_gor_not_ret _ _ _ _ Z) as Hn. unfold is_ret_code in Hn. rewrite Hc in Hn. rewrite !orb_true_r in Hn. discriminate.
   Qed.
 
   (* clause 5 *)
@@ -581,8 +643,9 @@ Proof.
     + destruct Z as (Gh1 & Gx & Ec & Hcl & Hcc & Hr1 & _). rewrite Gh in Gh1. inversion Gh1; subst hx. cbn [arel].
       exists x'. split; [exact Gx|]. cbn [bk mcaller mcanc mretd fst snd]. split; [exact Hcl|]. split; [exact Hcc|].
       rewrite Hcl, Ec, ccode_ret. cbn [andb]. destruct (mretd (fst z)); [cbn [orb]; symmetry; now apply Hr1 | reflexivity].
-    + pose proof Z as (Gh1 & Gy & Ec & [Hcl Hgr] & Hpub). rewrite Gh in Gh1. inversion Gh1; subst hx. cbn [arel].
+    + pose proof Z as (Gh1 & Gy & Ec & [Hcl Hgr] & Hpub & Hst & Hts). rewrite Gh in Gh1. inversion Gh1; subst hx. cbn [arel].
       exists y'. split; [exact Gy|]. split; [split; [exact Hcl | exact Hgr]|].
+      split; [|split; [exact Hst | exact Hts]].
       cbn [bk mpub fst snd]. destruct (mpub (fst z)) as [t|] eqn:Ep.
       * intros _. destruct Hpub as (y & r & _ & _ & Hy'); [congruence|]. eauto.
       * destruct (negb (mcaller (fst z)) && N.eqb (mout (fst z)) 2 &&
@@ -631,6 +694,7 @@ Proof.
   rewrite (existsb_false_intro is_cblocked) by (intros z Hz; exact (cl5a _ _ _ _ HMid HS' z Hz)).
   rewrite (cl5b _ _ _ _ HMid HI' HS' HM').
   rewrite (existsb_false_intro is_panic) by (intros z Hz; exact (cl8 _ _ _ _ HMid z Hz)).
+  rewrite (existsb_filter_false (bad_taint A2) is_newly) by (intros z Hz _; exact (cl9 _ _ _ _ HMid HI' HM' z Hz)).
   cbn [orb app]. eexists. split; [reflexivity|]. split; [|exact (conj HI' (conj HS' HM'))].
   exact (book_rel _ _ _ _ _ HMid HI' HS' HM' HSR).
 Qed.
